@@ -251,8 +251,10 @@ Section Guards.
     match f, d with FList, DFactoryList | FTuple, DFactoryTuple => true | _, _ => false end.
 
   (* ---- metadata of one field ------------------------------------------------------ *)
+  (* XmlVar.any_type (`object in types`): only the xs:anyType element fields of wf_elem *)
+  Definition is_object (v : xvar) : bool := match v_types v with [TObject] => true | _ => false end.
   Definition var_common (v : xvar) : bool :=
-    v_init v && negb (v_mixed v) && negb (v_any_type v)
+    v_init v && negb (v_mixed v) && Bool.eqb (v_any_type v) (is_object v)
     && match v_elements v with [] => true | _ => false end
     && match v_wildcards v with [] => true | _ => false end
     && negb (v_index v =? 0).
@@ -345,6 +347,17 @@ Section Guards.
               | None => match v_default v with DNone => true | _ => false end
               | Some f => factory_default f (v_default v)
               end
+       | Some TObject =>
+           (* xs:anyType element (Optional[object]) holding a str: written as plain text without xsi:type,
+              read by a WildcardNode that hands the raw text back (slice S5, partial).  No class may be
+              named like the element (the parser would build that class, XmlContext.find_type: clause
+              any_names_free of closed_ok) *)
+           negb (v_nillable v)
+           && match v_clazz v with None => true | Some _ => false end
+           && match v_tokens_factory v with None => true | Some _ => false end
+           && match v_factory v with None => true | Some _ => false end
+           && match v_default v with DNone => true | _ => false end
+           && match v_sequence v with None => true | Some _ => false end
        | Some t =>
            simple_type t
            && match v_clazz v with None => true | Some _ => false end
@@ -448,10 +461,16 @@ Section Guards.
                  end
         end
     end.
+  (* no class is registered under the name of an xs:anyType element field (ElementNode.build_node asks
+     XmlContext.find_type(qname) before it falls back to the WildcardNode) *)
+  Definition any_names_free (m : xmeta) : bool :=
+    forallb (fun e => forallb (fun v => negb (is_object v)
+                                        || match find_types u (v_qname v) with [] => true | _ => false end) (snd e))
+            (m_elements m).
   Definition closed_ok (R : list cls) : bool :=
     forallb (fun k => match u_meta u k with
                       | Some m =>
-                          N.eqb (m_clazz m) k && wf_class m
+                          N.eqb (m_clazz m) k && wf_class m && any_names_free m
                           && forallb (fun k' => existsb (N.eqb k') R) (class_children m)
                       | None => false
                       end) R.
@@ -579,6 +598,12 @@ Section Guards.
                   | _ => false
                   end
     | TQName => match x with VP p => qleaf_ok p | _ => false end
+    | TObject =>
+        (* a str in an xs:anyType field: DataType.from_value(str) is xs:string, no xsi:type is written *)
+        match x with
+        | VP (PStr s) => leaf_ok TStr (v_format v) (PStr s) && snd (c_datatype c (PStr s))
+        | _ => false
+        end
     | t => match x with VP p => leaf_ok t (v_format v) p && empty_ok v p | _ => false end
     end.
   Definition fits_tokens (v : xvar) (f : factory) (x : value) : bool :=
